@@ -3,9 +3,17 @@
 // One record = one history of operations on ONE LinkSystem and ONE store:
 //
 //	id, "hist", storekind (mem = storage/memstore via SetRead/WriteStorage | cid = cidlink.Memory),
-//	trusted (0|1), ops, tables, observation
+//	trusted (0|1), registry, ops, tables, observation
+//
+// registry: "G" = cidlink.DefaultLinkSystem() (the global multicodec registry), or
+// "R:<code>=<impl>[:e|:d],..." = cidlink.LinkSystemUsingMulticodecRegistry over a private registry
+// binding each code (hex) to the implementation whose canonical code is <impl> (71 dag-cbor, 51
+// cbor, 129 dag-json, 200 json, 55 raw), for both directions or only for encoding / decoding.
 //
 // ops (";"-separated):  S:<proto>:<holder>:<value>   Store
+//
+//	W:<proto>:<holder>:<sched>:<value>   Store whose storage writer misbehaves on its i-th Write
+//	                             (sched = ","-separated o | f fail this call | s<n> short write)
 //
 //	C:<proto>:<holder>:<value>   ComputeLink
 //	G:<form>:<link binary hex>   form l=Load r=LoadRaw p=LoadPlusRaw f=Fill
@@ -24,6 +32,7 @@ package main
 
 import (
 	"fmt"
+	"io"
 	"sort"
 	"strings"
 
@@ -37,7 +46,8 @@ import (
 )
 
 type op struct {
-	kind   byte // S C G
+	kind   byte // S W C G
+	sched  string
 	proto  lib.LkProto
 	holder string
 	val    *lib.Val
@@ -49,6 +59,8 @@ func (o *op) text() string {
 	switch o.kind {
 	case 'S', 'C':
 		return fmt.Sprintf("%c:%s:%s:%s", o.kind, o.proto.Spec(), o.holder, o.val.Text())
+	case 'W':
+		return fmt.Sprintf("W:%s:%s:%s:%s", o.proto.Spec(), o.holder, o.sched, o.val.Text())
 	}
 	return fmt.Sprintf("G:%c:%s", o.form, lib.Hex(o.link))
 }
@@ -59,6 +71,20 @@ func parseOp(s string) (*op, error) {
 		return nil, fmt.Errorf("bad op %q", s)
 	}
 	switch f[0] {
+	case "W":
+		g := strings.SplitN(s, ":", 5)
+		if len(g) != 5 {
+			return nil, fmt.Errorf("bad op %q", s)
+		}
+		p, err := lib.LkParseProto(g[1])
+		if err != nil {
+			return nil, err
+		}
+		v, err := lib.ParseVal(g[4])
+		if err != nil {
+			return nil, err
+		}
+		return &op{kind: 'W', proto: p, holder: g[2], sched: g[3], val: v}, nil
 	case "S", "C":
 		if len(f) != 4 {
 			return nil, fmt.Errorf("bad op %q", s)
@@ -79,13 +105,15 @@ func parseOp(s string) (*op, error) {
 }
 
 type world struct {
+	sched []string // write faults of the store in progress (nil: honest writer)
+	reg  *lib.LkReg
 	lsys linking.LinkSystem
 	mem  *memstore.Store
 	cid  *cidlink.Memory
 }
 
-func newWorld(kind string, trusted bool) *world {
-	w := &world{lsys: cidlink.DefaultLinkSystem()}
+func newWorld(kind string, trusted bool, reg *lib.LkReg) *world {
+	w := &world{lsys: reg.LinkSystem(), reg: reg}
 	w.lsys.TrustedStorage = trusted
 	if kind == "cid" {
 		w.cid = &cidlink.Memory{}
@@ -95,6 +123,14 @@ func newWorld(kind string, trusted bool) *world {
 		w.mem = &memstore.Store{}
 		w.lsys.SetReadStorage(w.mem)
 		w.lsys.SetWriteStorage(w.mem)
+	}
+	orig := w.lsys.StorageWriteOpener
+	w.lsys.StorageWriteOpener = func(lc linking.LinkContext) (io.Writer, linking.BlockWriteCommitter, error) {
+		wr, commit, err := orig(lc)
+		if err != nil || w.sched == nil {
+			return wr, commit, err
+		}
+		return &lib.LkFaultWriter{W: wr, Sched: w.sched}, commit, nil
 	}
 	return w
 }
@@ -139,33 +175,43 @@ type runner struct {
 	links []string
 }
 
-func newRunner(kind string, trusted bool) *runner {
-	return &runner{w: newWorld(kind, trusted), tab: lib.NewLkTables()}
+func newRunner(kind string, trusted bool, reg *lib.LkReg) *runner {
+	return &runner{w: newWorld(kind, trusted, reg), tab: lib.NewLkTables()}
 }
 
 func (rn *runner) do(o *op) {
 	w, tab := rn.w, rn.tab
 	switch o.kind {
-	case 'S', 'C':
+	case 'S', 'C', 'W':
 		n, err := lib.BuildHolder(o.holder, o.val)
 		if err != nil {
 			rn.obs = append(rn.obs, "builderr/-")
 			return
 		}
+		w.sched = nil
+		if o.kind == 'W' {
+			w.sched = strings.Split(o.sched, ",")
+		}
 		// tables: encoding (JSON codecs) and digest of the encoding under this prototype's hash
-		tab.Encode(o.proto.Codec, o.val, n)
 		tab.Hasher(o.proto.MhType)
-		if chunks, eerr := lib.LkEncode(o.proto.Codec, n); eerr == nil {
-			var all []byte
-			for _, c := range chunks {
-				all = append(all, c...)
+		if impl, ok := w.reg.Enc[o.proto.Codec]; ok {
+			if o.kind == 'W' {
+				tab.EncodeChunks(impl, o.val, n) // the schedule counts the real Write calls
+			} else {
+				tab.Encode(impl, o.val, n)
 			}
-			tab.Hash(o.proto.MhType, all)
+			if chunks, eerr := lib.LkEncode(impl, n); eerr == nil {
+				var all []byte
+				for _, c := range chunks {
+					all = append(all, c...)
+				}
+				tab.Hash(o.proto.MhType, all)
+			}
 		}
 		var l datamodel.Link
 		err = lib.Safely(func() error {
 			var e error
-			if o.kind == 'S' {
+			if o.kind == 'S' || o.kind == 'W' {
 				l, e = w.lsys.Store(linking.LinkContext{}, o.proto.LP(), n)
 			} else {
 				l, e = w.lsys.ComputeLink(o.proto.LP(), n)
@@ -175,6 +221,7 @@ func (rn *runner) do(o *op) {
 		if lib.IsPanic(err) {
 			l = nil
 		}
+		w.sched = nil
 		rn.obs = append(rn.obs, linkObs(lib.LkErrClass(err, "encode"), l))
 		if err == nil && l != nil {
 			rn.links = append(rn.links, l.Binary())
@@ -191,7 +238,9 @@ func (rn *runner) do(o *op) {
 		tab.Hasher(pfx.MhType)
 		if blk, ok := w.bag()[w.keyOf(l)]; ok {
 			tab.Hash(pfx.MhType, blk)
-			tab.Decode(pfx.Codec, blk)
+			if impl, ok := w.reg.Dec[pfx.Codec]; ok {
+				tab.Decode(impl, blk)
+			}
 		}
 		var n datamodel.Node
 		var raw []byte
@@ -234,8 +283,8 @@ func (rn *runner) finish() (string, string) {
 }
 
 // runHistory executes the ops against the real code; returns the observation and the tables.
-func runHistory(kind string, trusted bool, ops []*op) (string, string, []string) {
-	rn := newRunner(kind, trusted)
+func runHistory(kind string, trusted bool, reg *lib.LkReg, ops []*op) (string, string, []string) {
+	rn := newRunner(kind, trusted, reg)
 	for _, o := range ops {
 		rn.do(o)
 	}
@@ -255,8 +304,8 @@ func uniq(l []string) []string {
 	return out
 }
 
-func emit(out *lib.Out, id, kind string, trusted bool, ops []*op) {
-	o, t, _ := runHistory(kind, trusted, ops)
+func emit(out *lib.Out, id, kind string, trusted bool, reg *lib.LkReg, ops []*op) {
+	o, t, _ := runHistory(kind, trusted, reg, ops)
 	parts := make([]string, len(ops))
 	for i, x := range ops {
 		parts[i] = x.text()
@@ -265,12 +314,10 @@ func emit(out *lib.Out, id, kind string, trusted bool, ops []*op) {
 	if trusted {
 		tr = "1"
 	}
-	out.Case(id, "hist", kind, tr, strings.Join(parts, ";"), t, o)
+	out.Case(id, "hist", kind, tr, reg.Text(), strings.Join(parts, ";"), t, o)
 }
 
 // ---- generation
-
-var codecsAll = []uint64{lib.LkDagCbor, lib.LkDagCbor, lib.LkDagJson, lib.LkDagJson, lib.LkCbor, lib.LkJson, lib.LkRaw}
 
 var digestLen = map[uint64]int{0x12: 32, 0x13: 64, 0x16: 32}
 
@@ -310,21 +357,91 @@ func genProto(r *lib.Rng, codec uint64) lib.LkProto {
 }
 
 type made struct {
-	codec uint64
+	codec uint64 // code number
 	val   *lib.Val
 }
 
-func genHistory(r *lib.Rng, maxOps int) (string, bool, []*op) {
+var implsAll = []uint64{lib.LkDagCbor, lib.LkDagCbor, lib.LkDagJson, lib.LkDagJson, lib.LkCbor, lib.LkJson, lib.LkRaw}
+
+// genReg: a private registry — standard numbers bound to their own or to ANOTHER implementation,
+// private numbers, numbers bound for one direction only.
+func genReg(r *lib.Rng) *lib.LkReg {
+	rg := &lib.LkReg{Enc: map[uint64]uint64{}, Dec: map[uint64]uint64{}}
+	bind := func(code, impl uint64) { rg.Enc[code] = impl; rg.Dec[code] = impl }
+	for _, std := range []uint64{lib.LkDagCbor, lib.LkDagJson, lib.LkCbor, lib.LkJson, lib.LkRaw} {
+		switch r.Intn(5) {
+		case 0: // absent
+		case 1, 2: // re-bound to a different implementation than the global registry has
+			impl := implsAll[r.Intn(len(implsAll))]
+			bind(std, impl)
+		default:
+			bind(std, std)
+		}
+	}
+	if r.Intn(3) != 0 {
+		bind(lib.LkDagPb, lib.LkDagCbor)
+	}
+	for i, n := 0, 1+r.Intn(3); i < n; i++ {
+		bind(uint64(0x300001+r.Intn(6)), implsAll[r.Intn(len(implsAll))])
+	}
+	if r.Intn(2) == 0 {
+		rg.Enc[uint64(0x300010+r.Intn(2))] = implsAll[r.Intn(len(implsAll))]
+	}
+	if r.Intn(2) == 0 {
+		rg.Dec[uint64(0x300020+r.Intn(2))] = implsAll[r.Intn(len(implsAll))]
+	}
+	return rg
+}
+
+func regCodes(rg *lib.LkReg) []uint64 {
+	seen := map[uint64]bool{}
+	var out []uint64
+	for _, m := range []map[uint64]uint64{rg.Enc, rg.Dec} {
+		for c := range m {
+			if !seen[c] {
+				seen[c] = true
+				out = append(out, c)
+			}
+		}
+	}
+	sort.Slice(out, func(i, j int) bool { return out[i] < out[j] })
+	return out
+}
+
+// implFor: the implementation whose value domain a store under this code should respect.
+func implFor(rg *lib.LkReg, code uint64) uint64 {
+	if impl, ok := rg.Enc[code]; ok {
+		return impl
+	}
+	if impl, ok := rg.Dec[code]; ok {
+		return impl
+	}
+	return lib.LkDagCbor
+}
+
+func genHistory(r *lib.Rng, maxOps int) (string, bool, *lib.LkReg, []*op) {
 	kind := "mem"
 	if r.Intn(3) == 0 {
 		kind = "cid"
 	}
 	trusted := r.Intn(8) == 0
+	reg := lib.LkGlobalReg()
+	if r.Intn(5) < 2 {
+		reg = genReg(r)
+	}
+	codes := regCodes(reg)
+	pick := func() uint64 {
+		c := codes[r.Intn(len(codes))]
+		if c == lib.LkDagPb && r.Intn(3) != 0 { // v0 prototypes: now and then
+			c = codes[r.Intn(len(codes))]
+		}
+		return c
+	}
 	nops := 2 + r.Intn(maxOps-1)
 	var ops []*op
-	var pool []made     // values made so far
+	var pool []made // values made so far
 	var protos []lib.LkProto
-	live := newRunner(kind, trusted) // runs alongside, to learn the links
+	live := newRunner(kind, trusted, reg) // runs alongside, to learn the links
 	for len(ops) < nops {
 		switch k := r.Intn(20); {
 		case k < 11 || len(live.links) == 0: // store / compute
@@ -335,20 +452,18 @@ func genHistory(r *lib.Rng, maxOps int) (string, bool, []*op) {
 				m := pool[r.Intn(len(pool))]
 				codec, v = m.codec, r.Permuted(m.val)
 				if r.Intn(4) == 0 {
-					c2 := codecsAll[r.Intn(len(codecsAll))]
-					if lib.LkInDomain(c2, v) {
+					c2 := pick()
+					if lib.LkInDomain(implFor(reg, c2), v) {
 						codec = c2
 					}
 				}
 			} else {
-				codec = codecsAll[r.Intn(len(codecsAll))]
-				if r.Intn(12) == 0 {
-					codec = lib.LkDagPb
-				}
-				v = r.LkGenVal(codec)
+				codec = pick()
+				impl := implFor(reg, codec)
+				v = r.LkGenVal(impl)
 				if r.Intn(25) == 0 {
 					// outside the codec's domain on purpose: the encoder must refuse, nothing is stored
-					switch codec {
+					switch impl {
 					case lib.LkRaw:
 						v = lib.Int(7)
 					case lib.LkCbor, lib.LkJson:
@@ -371,11 +486,32 @@ func genHistory(r *lib.Rng, maxOps int) (string, bool, []*op) {
 			if p.Version == 1 && r.Intn(60) == 0 {
 				p.MhType = 0x99 // no such hasher: setup error, nothing else happens
 			}
+			if p.Version == 1 && r.Intn(80) == 0 {
+				p.Codec = 0x3fffff // a code nobody registered
+			}
 			protos = append(protos, p)
 			hs := lib.HoldersFor(v)
 			o := &op{kind: 'S', proto: p, holder: hs[r.Intn(len(hs))], val: v}
-			if r.Intn(3) == 0 {
+			switch r.Intn(9) {
+			case 0, 1, 2:
 				o.kind = 'C'
+			case 3:
+				// the storage writer misbehaves on one or two of the first writes (not combined with a
+				// value the encoder refuses half-way: which error wins is not modelled)
+				if !lib.LkInDomain(implFor(reg, p.Codec), v) {
+					break
+				}
+				o.kind = 'W'
+				k := r.Intn(12)
+				sc := make([]string, k+1)
+				for i := range sc {
+					sc[i] = "o"
+				}
+				sc[k] = []string{"f", "f", "s0", "s1", "s3"}[r.Intn(5)]
+				if r.Intn(3) == 0 {
+					sc = append(sc, "o", "f")
+				}
+				o.sched = strings.Join(sc, ",")
 			}
 			ops = append(ops, o)
 			live.do(o)
@@ -394,7 +530,7 @@ func genHistory(r *lib.Rng, maxOps int) (string, bool, []*op) {
 			live.do(o)
 		}
 	}
-	return kind, trusted, ops
+	return kind, trusted, reg, ops
 }
 
 func main() {
@@ -405,18 +541,22 @@ func main() {
 	if fl.Replay != "" {
 		for _, line := range lib.ReadLines(fl.Replay) {
 			f := strings.Split(line, "\t")
-			if len(f) < 5 || f[1] != "hist" {
+			if len(f) < 6 || f[1] != "hist" {
 				continue
 			}
+			reg, err := lib.LkParseReg(f[4])
+			if err != nil {
+				panic(err)
+			}
 			var ops []*op
-			for _, s := range strings.Split(f[4], ";") {
+			for _, s := range strings.Split(f[5], ";") {
 				o, err := parseOp(s)
 				if err != nil {
 					panic(err)
 				}
 				ops = append(ops, o)
 			}
-			emit(out, f[0], f[2], f[3] == "1", ops)
+			emit(out, f[0], f[2], f[3] == "1", reg, ops)
 		}
 		return
 	}
@@ -436,6 +576,7 @@ func main() {
 
 	// ---- fixed corpus: every codec x hash x digest length, store = compute = compute again, all
 	// four loads; the same map in two insertion orders; the collision witness (digest length 0)
+	G := lib.LkGlobalReg()
 	m1 := lib.Map(lib.Entry{K: "b", V: lib.Int(1)}, lib.Entry{K: "a", V: lib.Str("x")}, lib.Entry{K: "cc", V: lib.List(lib.Bool(true), lib.Null())})
 	m2 := lib.Map(lib.Entry{K: "cc", V: lib.List(lib.Bool(true), lib.Null())}, lib.Entry{K: "a", V: lib.Str("x")}, lib.Entry{K: "b", V: lib.Int(1)})
 	for _, kind := range []string{"mem", "cid"} {
@@ -458,23 +599,23 @@ func main() {
 					{kind: 'C', proto: p, holder: "basic", val: vb},
 					{kind: 'S', proto: p, holder: lib.HoldersFor(vb)[1%len(lib.HoldersFor(vb))], val: vb},
 				}
-				_, _, ls := runHistory(kind, false, ops)
+				_, _, ls := runHistory(kind, false, G, ops)
 				for _, l := range uniq(ls) {
 					for _, f := range "lrpf" {
 						ops = append(ops, &op{kind: 'G', form: byte(f), link: l})
 					}
 				}
-				emit(out, next("k"), kind, false, ops)
+				emit(out, next("k"), kind, false, G, ops)
 			}
 		}
 		// collision by truncation to nothing: two values, one key
 		p0 := lib.LkProto{Version: 1, Codec: lib.LkDagCbor, MhType: 0x12, MhLen: 0}
 		ops := []*op{{kind: 'S', proto: p0, holder: "basic", val: lib.Int(1)}, {kind: 'S', proto: p0, holder: "basic", val: lib.Int(2)}}
-		_, _, ls := runHistory(kind, false, ops)
+		_, _, ls := runHistory(kind, false, G, ops)
 		for _, f := range "lrpf" {
 			ops = append(ops, &op{kind: 'G', form: byte(f), link: ls[0]})
 		}
-		emit(out, next("k"), kind, false, ops)
+		emit(out, next("k"), kind, false, G, ops)
 	}
 	// configurations outside the property's space (still run, reported as skip by the oracle):
 	// CIDv0 prototype naming another codec; digest length beyond the hash output; bad version
@@ -487,16 +628,49 @@ func main() {
 		{Version: 2, Codec: lib.LkDagCbor, MhType: 0x12, MhLen: 32},
 	} {
 		ops := []*op{{kind: 'C', proto: p, holder: "basic", val: m1}, {kind: 'S', proto: p, holder: "basic", val: m1}}
-		_, _, ls := runHistory("mem", false, ops)
+		_, _, ls := runHistory("mem", false, G, ops)
 		for _, l := range ls {
 			ops = append(ops, &op{kind: 'G', form: 'l', link: l})
 		}
-		emit(out, next("oos"), "mem", false, ops)
+		emit(out, next("oos"), "mem", false, G, ops)
+	}
+
+	// private registries: a standard number re-bound to another implementation than the global
+	// registry has (0x71 -> raw, 0x55 -> dag-cbor, 0x129 -> json), private numbers, a number bound
+	// for encoding only and one for decoding only
+	custom, err := lib.LkParseReg("R:71=55,55=71,129=200,300001=129,300002=71,300003=55,300010=71:e,300020=129:d,70=71")
+	if err != nil {
+		panic(err)
+	}
+	for _, kind := range []string{"mem", "cid"} {
+		for _, code := range regCodes(custom) {
+			impl := implFor(custom, code)
+			p := lib.LkProto{Version: 1, Codec: code, MhType: 0x12, MhLen: -1}
+			if code == lib.LkDagPb {
+				p.Version, p.MhLen = 0, 32
+			}
+			va, vb := m1, m2
+			if impl == lib.LkRaw {
+				va, vb = lib.Bytes("hello"), lib.Bytes("hello")
+			}
+			ops := []*op{
+				{kind: 'C', proto: p, holder: "basic", val: va},
+				{kind: 'S', proto: p, holder: "basic", val: va},
+				{kind: 'S', proto: p, holder: "basic", val: vb},
+			}
+			_, _, ls := runHistory(kind, false, custom, ops)
+			for _, l := range uniq(ls) {
+				for _, f := range "lrpf" {
+					ops = append(ops, &op{kind: 'G', form: byte(f), link: l})
+				}
+			}
+			emit(out, next("r"), kind, false, custom, ops)
+		}
 	}
 
 	rng := lib.NewRng(fl.Seed)
 	for i := 0; i < n; i++ {
-		kind, trusted, ops := genHistory(rng.Fork(), maxOps)
-		emit(out, next("h"), kind, trusted, ops)
+		kind, trusted, reg, ops := genHistory(rng.Fork(), maxOps)
+		emit(out, next("h"), kind, trusted, reg, ops)
 	}
 }
